@@ -364,6 +364,21 @@ def Conn_Release : List String := [
   "c.Close()",
   "end"
 ]
+def EncodeTargetReadyMessage : List String := [
+  "return []byte(fmt.Sprintf(\"%s|%s\", tunnelID, targetNodeID))"
+]
+def DecodeTargetReadyMessage : List String := [
+  "s := string(data)",
+  "for i := len(s) - 1; i >= 0; i--",
+  "if s[i] == '|'",
+  "tunnelID = s[:i]",
+  "targetNodeID = s[i+1:]",
+  "return",
+  "end",
+  "end",
+  "err = coreerrors.New(coreerrors.CodeInvalidPacket, \"invalid target ready message format\")",
+  "return"
+]
 end Flow
 
 end Gen
